@@ -94,7 +94,12 @@ def _build(tree):
     root.set(_blank(tree))
     log = []
     byid = {}
+    _dress(root, tree, byid, log)
+    return root, byid, log
 
+
+def _dress(root, tree, byid, log):
+    """(Re)assign optional flags, validator lists and scalar emptiness of every element."""
     def mk(nid, descending, idx, code):
         outcome = _outcome_obj(code)
 
@@ -111,12 +116,13 @@ def _build(tree):
             el.validators = [mk(node["id"], False, i, c) for i, c in enumerate(node["up"])]
         else:
             el.validators = [mk(node["id"], True, i, c) for i, c in enumerate(node["down"])]
+            if bool(el.is_empty) != node["empty"]:
+                el.set(None if node["empty"] else "x")
         kids = _children(el, node)
         assert len(kids) == len(node["kids"])
         for ke, kn in zip(kids, node["kids"]):
             dress(ke, kn)
     dress(root, tree)
-    return root, byid, log
 
 
 def _preorder(node):
@@ -168,7 +174,8 @@ def _up(node):
 _TRUTHY = {"U": True, "T": True, "SA": True, "F": False, "SAF": False}
 
 
-def expected(tree):
+def expected(tree, prev=None):
+    prev = prev or {}
     visited = []
     level = [tree]
     while level:
@@ -196,8 +203,24 @@ def expected(tree):
             v = "T" if (_TRUTHY[d] and _TRUTHY[u]) else "F"
         verdict[n["id"]] = v
     ret = all(v != "F" for v in verdict.values())
-    valids = [[n["id"], verdict.get(n["id"], "U")] for n in _preorder(tree)]
-    return {"ret": ret, "valids": valids, "log": log, "all_valid": ret}
+    # unvisited elements keep whatever an earlier call left (Unevaluated on a fresh tree)
+    now = {n["id"]: verdict.get(n["id"], prev.get(n["id"], "U")) for n in _preorder(tree)}
+    valids = [[n["id"], now[n["id"]]] for n in _preorder(tree)]
+    return {"ret": ret, "valids": valids, "log": log, "all_valid": all(v != "F" for v in now.values())}, now
+
+
+def _reassign(rng, tree):
+    """Same tree shape, new outcomes / optional flags / scalar emptiness."""
+    import copy
+    t = copy.deepcopy(tree)
+    for n in _preorder(t):
+        n["opt"] = rng.random() < 0.4
+        n["down"] = _rand_outcomes(rng)
+        if n["c"]:
+            n["up"] = _rand_outcomes(rng)
+        elif rng.random() < 0.5:
+            n["empty"] = rng.random() < 0.4
+    return t
 
 
 class C05(Property):
@@ -224,7 +247,8 @@ class C05(Property):
         "is_empty/optional of a node are inputs of the model; the harness asserts they match the real element",
         "validate(recurse=False) is not covered",
     ]
-    rule = ("trees of String/Dict/List nodes (List members share one member schema), per-node optional/empty flags and "
+    rule = ("(half of the cases re-validate the same element tree 1-3 more times with new outcomes, flags and scalar emptiness) "
+            "trees of String/Dict/List nodes (List members share one member schema), per-node optional/empty flags and "
             "0-3 outcomes per validator list; exhaustive sub-space: every 2-node tree (container root + one scalar) over "
             "all outcome lists of length <=1 and all flags; non-trivial = at least 2 validators invoked or a SkipAll cut "
             "or an optional-empty skip; distinct = distinct canonical case JSON")
@@ -238,7 +262,12 @@ class C05(Property):
                 {"k": "s", "c": False, "opt": False, "empty": False, "down": ["F"], "up": [], "kids": []}]},
             {"k": "s", "c": False, "opt": True, "empty": True, "down": ["F"], "up": [], "kids": []},
             {"k": "s", "c": False, "opt": False, "empty": False, "down": ["T", "N", "T"], "up": [], "kids": []}]}
-        return [{"tree": _number(t)}]
+        import copy
+        first = {"k": "d", "c": True, "opt": False, "empty": False, "down": [], "up": ["F"], "kids": [
+            {"k": "s", "c": False, "opt": False, "empty": False, "down": ["T"], "up": [], "kids": []}]}
+        second = copy.deepcopy(first)
+        second["up"] = ["T"]
+        return [{"tree": _number(t)}, {"tree": _number(first), "rounds": [_number(second)]}]
 
     def exhaustive(self, tier):
         opts = [[]] + [[o] for o in OUTCOMES]
@@ -257,33 +286,58 @@ class C05(Property):
             shape = _rand_shape(rng, depth, [rng.choice([4, 8, 12, 16])])
             if shape[0] == "s" and rng.random() < 0.8:
                 shape = ("d", [shape, ("s",)])
-            yield {"tree": _number(_instantiate(rng, shape))}
+            tree = _number(_instantiate(rng, shape))
+            case = {"tree": tree}
+            if rng.random() < 0.5:
+                case["rounds"] = [_reassign(rng, tree) for _ in range(rng.choice([1, 1, 2, 3]))]
+            yield case
+
+    def _observe(self, root, byid, tree, log, start):
+        ret = root.validate()
+        return {
+            "ret": bool(ret) if isinstance(ret, (bool, int)) else repr(ret),
+            "valids": [[n["id"], _valid_code(byid[n["id"]])] for n in _preorder(tree)],
+            "log": log[start:],
+            "all_valid": bool(root.all_valid),
+        }
 
     def run_impl(self, case):
         tree = case["tree"]
         root, byid, log = _build(tree)
         for n in _preorder(tree):
             assert bool(byid[n["id"]].is_empty) == n["empty"], "harness: is_empty mismatch"
-        ret = root.validate()
-        return {
-            "ret": bool(ret) if isinstance(ret, (bool, int)) else repr(ret),
-            "valids": [[n["id"], _valid_code(byid[n["id"]])] for n in _preorder(tree)],
-            "log": log,
-            "all_valid": bool(root.all_valid),
-        }
+        obs = self._observe(root, byid, tree, log, 0)
+        rounds = []
+        for rt in case.get("rounds", []):
+            start = len(log)
+            _dress(root, rt, byid, log)
+            for n in _preorder(rt):
+                assert bool(byid[n["id"]].is_empty) == n["empty"], "harness: is_empty mismatch"
+            rounds.append(self._observe(root, byid, rt, log, start))
+        obs["rounds"] = rounds
+        return obs
 
     def oracle(self, case):
         obs = self.run_impl(case)
-        exp = expected(case["tree"])
         fails = []
-        if obs["log"] != exp["log"]:
-            fails.append({"clause": "invocation-order", "expected": exp["log"], "observed": obs["log"]})
-        if obs["valids"] != exp["valids"]:
-            fails.append({"clause": "valid-flags", "expected": exp["valids"], "observed": obs["valids"]})
-        if obs["ret"] != exp["ret"]:
-            fails.append({"clause": "return-value", "expected": exp["ret"], "observed": obs["ret"]})
-        if obs["all_valid"] != obs["ret"]:
-            fails.append({"clause": "return-equals-all_valid", "expected": obs["ret"], "observed": obs["all_valid"]})
+        prev = {}
+        trees = [case["tree"]] + case.get("rounds", [])
+        observed = [obs] + obs["rounds"]
+        for r, (t, o) in enumerate(zip(trees, observed)):
+            exp, prev = expected(t, prev)
+            tag = "" if r == 0 else " (re-validation %d of the same tree)" % r
+            if o["log"] != exp["log"]:
+                fails.append({"clause": "invocation-order" + tag, "expected": exp["log"], "observed": o["log"]})
+            if o["valids"] != exp["valids"]:
+                fails.append({"clause": "valid-flags" + tag, "expected": exp["valids"], "observed": o["valids"]})
+            if o["ret"] != exp["ret"]:
+                fails.append({"clause": "return-value" + tag, "expected": exp["ret"], "observed": o["ret"]})
+            if o["all_valid"] != exp["all_valid"]:
+                fails.append({"clause": "all_valid" + tag, "expected": exp["all_valid"], "observed": o["all_valid"]})
+            if r == 0 and o["all_valid"] != o["ret"]:
+                fails.append({"clause": "return-equals-all_valid", "expected": o["ret"], "observed": o["all_valid"]})
+            if fails:
+                break
         return fails
 
     def nontrivial(self, case, obs):
@@ -301,10 +355,17 @@ class C05(Property):
         if any(v == "U" for _, v in obs["valids"]):
             t.append("has-unevaluated")
         t.append("calls=%d" % min(len(obs["log"]), 10))
+        t.append("rounds=%d" % len(case.get("rounds", [])))
         return t
 
     def shrink_candidates(self, case):
         import copy
+        if case.get("rounds"):
+            for i in range(len(case["rounds"])):
+                c = copy.deepcopy(case)
+                del c["rounds"][i]
+                yield c
+            return
         tree = case["tree"]
         nodes = list(_preorder(tree))
         # drop a subtree (only below dict nodes with >1 kid, or list members)
